@@ -756,6 +756,11 @@ func (e *escaper) escapeTree(c context, node parse.Node, name string, line int) 
 	in := c
 	if in.state == stateAttr {
 		in.attr.valueFromCaller = true
+		if strings.Contains(dname, "(...)") {
+			// The static text before the call is too long to be part of the name, so call sites
+			// with different text share this analysis: it must not rely on the text.
+			in.attr.ambiguousValue = true
+		}
 	}
 	out := e.computeOutCtx(in, t)
 	// For the caller the value is its own only if it was so before the call.
